@@ -264,8 +264,11 @@ CONFIG = {
         "rule": BUF_MODEL + "non-trivial = a state change placed strictly inside a cooldown window that was later followed by an eviction, or values freed by closing the slowest consumer; distinct = hash of the executed op trace. "
                 "Plus a real-time window probe using the verif instrumentation points: the cleanup goroutine is delayed between a pass that saw 'cooldown pending' and parking on the "
                 "cond (delay in {0, 0.5, 1.2, 2, 3} cooldowns; cooldown 1/2/4 ms; 1-3 consumers; final change = commit or close at 0.2-0.8 of the window); verdict only when the stuck state "
-                "is confirmed from the goroutine dump and a timer canary (else inconclusive); non-trivial = the hook fired with a non-zero delay and the change landed inside the window.",
+                "is confirmed from the goroutine dump and a timer canary (else inconclusive); non-trivial = the hook fired with a non-zero delay and the change landed inside the window. "
+                "Plus bulk (virtual time): 300-20000 values (sizes straddling the powers of two) put in 1-10 batches, read and committed in one go or in strides by 1-3 consumers, the slowest "
+                "optionally closed, or a FixedBufferCleaner overrun by the burst; one cooldown after the last change Size must equal the slowest backlog (<= max); non-trivial = more than 4096 values.",
         "jobs": [bufstep("C04", 24000, 800000),
+                 {"name": "bulk", "test": "TestC04Bulk", "checks": {"quick": 600, "thorough": 30000}, "shards": {"quick": 4, "thorough": 8}},
                  {"name": "probe", "test": "TestC04Probe", "checks": {"quick": 160, "thorough": 4000}, "shards": {"quick": 8, "thorough": 16}, "shrinktime": "10s"}],
     },
     "C05": {
